@@ -672,6 +672,7 @@ func writeEvidence(prop, tier string, seed uint64, info propInfo, s *summary, wa
 			"faults_fired":        faults,
 			"reach_probes":        probes,
 			"distinct_event_logs": len(s.hashes),
+			"counters":            s.stats,
 			"runs_abandoned_precondition": s.abandoned,
 			"census":              "passed",
 			"known_findings_printed": known,
@@ -700,6 +701,11 @@ type ReplayFile struct {
 	Mode      string          `json:"mode,omitempty"`
 	EventHash string          `json:"event_hash"`
 	Plan      *core.Plan      `json:"plan"`
+}
+
+func planHashBytes(b []byte) string {
+	h := sha256.Sum256(b)
+	return hex.EncodeToString(h[:])[:12]
 }
 
 func planHash(p *core.Plan) string {
@@ -800,6 +806,10 @@ func replay(path string) int {
 	if err != nil {
 		fmt.Fprintln(os.Stderr, err)
 		return 2
+	}
+	var drf driverReplay
+	if json.Unmarshal(b, &drf) == nil && drf.Driver {
+		return driverReplayFile(&drf)
 	}
 	var rf ReplayFile
 	dec := json.NewDecoder(bytes.NewReader(b))
